@@ -1,4 +1,6 @@
 import Thanos.Lemmas.DownsampleCounter
+import Thanos.Lemmas.DownsampleCounterL1
+import Thanos.Props.C36
 import Thanos.Generated.Facts
 /-
   C37 — Downsampled counters preserve the raw counter's increase.
@@ -28,6 +30,79 @@ theorem C37_raw_stretch (l : List Pt) (s : CR) (hs : 0 < s.total)
 theorem C37_window_counter (hist cur : List Int) (h : hist ++ cur ≠ []) :
     (snap hist cur).counter = adjusted (hist ++ cur) := snap_counter hist cur h
 
+/-! ### level 1: raw → DownsampleRaw → read back -/
+
+/-- the segments (batch, emission timestamps) behind the chunks of DownsampleRaw -/
+def segsOf (r : Int) (nc : Nat) (data : List Raw) : List (List Pt × List Int) :=
+  (batchesOf r nc data).map fun b => (b, batchTs r b (lastT b))
+
+theorem map_of_map_some {α β γ : Type} (f : α → Option β) (proj : β → γ) (G : α → γ) :
+    ∀ (bs : List α) (chunks : List β), chunks.map some = bs.map f →
+      (∀ b ∈ bs, ∀ c, f b = some c → proj c = G b) → chunks.map proj = bs.map G
+  | [], [], _, _ => rfl
+  | [], _ :: _, h, _ => by simp at h
+  | _ :: _, [], h, _ => by simp at h
+  | b :: bs, c :: cs, h, hp => by
+    simp only [List.map_cons, List.cons.injEq] at h
+    simp only [List.map_cons]
+    rw [hp b (by simp) c h.1.symm, map_of_map_some f proj G bs cs h.2 (fun b' hb' => hp b' (List.mem_cons_of_mem _ hb'))]
+
+/-- **C37, level 1.**  Reading the counter aggregate of the chunks DownsampleRaw produces (the
+    querier's `NewApplyCounterResetsIterator` over the counter sub-chunks) returns, per batch, the
+    batch's first raw timestamp and then its later window timestamps, each with the raw counter
+    adjusted for all resets up to the last raw sample at or before that timestamp (`adjAt` over the
+    non-NaN raw series) — resets inside windows, at window ends and between chunks included. -/
+theorem C37_level1 (r : Int) (hr : 0 < r) (data : List Raw) (nc : Nat) (hnc : 0 < nc) (ok : RawOK data)
+    (hv : ∀ p ∈ dropNaN data, 0 ≤ p.2) :
+    ∃ chunks, downsampleRaw data r nc = some chunks ∧
+      (applyResets (chunks.map (·.counter))).1 =
+        (segsOf r nc data).flatMap (fun sg => (segTs sg.1 sg.2).map fun t => (t, adjAt (dropNaN data) t)) := by
+  obtain ⟨chunks, hc, hflat, hne, _, hmap⟩ := downsampleRaw_batches r hr data nc hnc ok.sorted ok.nonneg
+  have hbf := batch_facts (r := r) (nc := nc) ok hflat hne
+  have hshape := chunk_shape hr (nc := nc) ok hflat hne
+  -- counter sub-chunks = ctrChunk of the segments
+  have hctr : chunks.map (·.counter) = (segsOf r nc data).map (fun sg => ctrChunk sg.1 sg.2) := by
+    simp only [segsOf, List.map_map, Function.comp_def]
+    refine map_of_map_some (fun b => floatBatch b r) (·.counter) _ _ _ hmap ?_
+    intro b hb c hfc
+    obtain ⟨hs, h0, _, _, _, _, lt, lv, _, hl, hlt⟩ := hbf b hb
+    rw [hlt]
+    exact (floatBatch_counter r hr b lt lv hl h0 hs c hfc).1
+  -- every segment is well-formed
+  have hseg : ∀ sg ∈ segsOf r nc data, SegOK sg.1 sg.2 := by
+    intro sg hsg
+    simp only [segsOf, List.mem_map] at hsg
+    obtain ⟨b, hb, rfl⟩ := hsg
+    obtain ⟨hs, h0, _, _, t0, v0, lt, lv, hh, hl, hlt⟩ := hbf b hb
+    obtain ⟨c, hfc⟩ := floatBatch_isSome r b (hne b hb)
+    obtain ⟨ts, t0', v0', hh', p1, _, _, _, p5, p6, p7, p8, _⟩ := hshape b hb c hfc
+    have hT : batchTs r b (lastT b) = ts := by
+      rw [hlt, ← (floatBatch_counter r hr b lt lv hl h0 hs c hfc).2, p1]
+    simp only
+    rw [hT]
+    refine ⟨hs, hne b hb, fun p hp => hv p (hflat ▸ List.mem_flatten.mpr ⟨b, hb, hp⟩), ?_, p5, ?_, ?_⟩
+    · intro hc'; rw [hc'] at p8; simp at p8
+    · intro t ht f hf
+      rw [hh'] at hf
+      simp only [Option.some.injEq] at hf
+      rw [← hf]; exact (p6 t ht).1
+    · intro l hl'
+      rw [hl] at hl'
+      simp only [Option.some.injEq] at hl'
+      rw [← hl', ← hlt]; exact p7
+  have hflat' : (segsOf r nc data).flatMap (·.1) = dropNaN data := by
+    rw [← hflat]
+    simp only [segsOf, List.flatMap_def, List.map_map, Function.comp_def, List.map_id']
+    rfl
+  have hsorted : Sorted ([] ++ (segsOf r nc data).flatMap (·.1)) := by
+    rw [List.nil_append, hflat']; exact sorted_dropNaN ok.sorted
+  obtain ⟨hread, _⟩ := crChunks_segs (segsOf r nc data) [] {} [] hseg hsorted (by simp [StateAfter])
+  refine ⟨chunks, hc, ?_⟩
+  have happly : (applyResets (chunks.map (·.counter))).1 = (crChunks (chunks.map (·.counter)) {} []).1 := by
+    simp only [applyResets]
+  rw [happly, hctr, hread, readSegs_global _ [] hsorted hseg]
+  simp only [List.nil_append, hflat']
+
 /-- Regenerated obligations: reset detection in the aggregator and in the reader, and the
     `Seek(lastT + 1)` at a chunk switch. -/
 theorem C37_source_facts :
@@ -37,6 +112,29 @@ theorem C37_source_facts :
       "t == it.lastT"] ∧
     Thanos.Facts.dsCounterNextSeek = ["it.Seek(it.lastT + 1)"] := by
   decide
+
+/-- every sample the reader returns for level-1 data carries the reset-adjusted raw counter at its timestamp -/
+theorem C37_level1_pointwise (r : Int) (hr : 0 < r) (data : List Raw) (nc : Nat) (hnc : 0 < nc) (ok : RawOK data)
+    (hv : ∀ p ∈ dropNaN data, 0 ≤ p.2) :
+    ∃ chunks, downsampleRaw data r nc = some chunks ∧
+      ∀ p ∈ (applyResets (chunks.map (·.counter))).1, p.2 = adjAt (dropNaN data) p.1 := by
+  obtain ⟨chunks, hc, h⟩ := C37_level1 r hr data nc hnc ok hv
+  refine ⟨chunks, hc, ?_⟩
+  intro p hp
+  rw [h] at hp
+  obtain ⟨sg, _, hp⟩ := List.mem_flatMap.mp hp
+  obtain ⟨t, _, rfl⟩ := List.mem_map.mp hp
+  rfl
+
+-- non-vacuity: a counter with a reset inside a window (t = 3), one exactly between the two chunks
+-- (t = 60) and a NaN; `C37_level1` applies (RawOK, values ≥ 0) and its right-hand side is
+example : RawOK [(1, some 5), (2, some 7), (3, some 2), (4, none), (60, some 1), (61, some 4)] :=
+  ⟨by simp [SortedRaw], by decide, by decide, by decide⟩
+example : (segsOf 50 2 [(1, some 5), (2, some 7), (3, some 2), (4, none), (60, some 1), (61, some 4)]).flatMap
+    (fun sg => (segTs sg.1 sg.2).map fun t => (t, adjAt [(1, 5), (2, 7), (3, 2), (60, 1), (61, 4)] t)) =
+    [(1, 5), (3, 9), (60, 10), (61, 13)] := by decide
+example : ((downsampleRaw [(1, some 5), (2, some 7), (3, some 2), (4, none), (60, some 1), (61, some 4)] 50 2).map
+    fun cs => (applyResets (cs.map (·.counter))).1) = some [(1, 5), (3, 9), (60, 10), (61, 13)] := by decide
 
 -- non-vacuity: TestDownsampleCounterBoundaryReset
 example : (applyResets [[(10, 1), (30, 5), (30, 5)], [(50, 1), (70, 10), (70, 10)], [(120, 1), (140, 20), (140, 20)]]).1 =
